@@ -157,6 +157,43 @@ func (c *Ctx) ruleParamKeys() {
 			case "NamedParameter":
 				k, ok := constString(fp, call.Args[0])
 				if !ok {
+					// the key is a parameter of a helper (`requiredParameter(d, "Title")`): the readers are its call sites,
+					// each with the constant it hands in and the directive it hands in
+					if ki := paramIndexOf(f, call.Args[0]); ki >= 0 && !paramAssigned(f, call.Args[0]) {
+						di := -1
+						if sel, isSel := ast.Unparen(call.Fun).(*ast.SelectorExpr); isSel {
+							di = paramIndexOf(f, sel.X)
+						}
+						if sites, closed := c.callersOf(f); closed && len(sites) > 0 {
+							all := true
+							var lifted []reader
+							for _, cs := range sites {
+								ka := argFor(cs, ki)
+								kk, isConst := "", false
+								if ka != nil {
+									kk, isConst = constString(cs.g.Pkg, ka)
+								}
+								if !isConst {
+									all = false
+									break
+								}
+								own := false
+								if di >= 0 {
+									if da := argFor(cs, di); da != nil {
+										if id, isId := ast.Unparen(da).(*ast.Ident); isId {
+											o := cs.g.Pkg.TypesInfo.Uses[id]
+											own = o != nil && o == directiveParam(cs.g)
+										}
+									}
+								}
+								lifted = append(lifted, reader{cs.g, kk, cs.call.Pos(), own})
+							}
+							if all {
+								readers = append(readers, lifted...)
+								return true
+							}
+						}
+					}
 					if f.Obj.Name() != "NamedParameter" {
 						r.Undecided("C02-PARAM-KEYS", "reader with a non-constant key in "+f.Name(), exprString(call), c.pos(call.Pos()))
 					}
